@@ -117,7 +117,7 @@ func (p *path) runInits() {
 }
 
 func (e *Engine) isInterpretedPkg(path string) bool {
-	if path == e.modPath || strings.HasPrefix(path, e.modPath+"/") {
+	if path == e.modPath || strings.HasPrefix(path, e.modPath+"/") || isExecPath(path) {
 		return true
 	}
 	switch path {
@@ -234,6 +234,9 @@ func (p *path) callFunction(caller *frame, fn *ssa.Function, args []value, env [
 		p.unsupported("call of " + name)
 	}
 	if fn.Blocks == nil {
+		if zeroResultExternals[name] {
+			return p.zero(fn.Signature.Results())
+		}
 		p.unsupported("call of external function " + name)
 	}
 	p.funcs[name] = true
@@ -272,7 +275,12 @@ func (p *path) callFunction(caller *frame, fn *ssa.Function, args []value, env [
 }
 
 func (e *Engine) isGomacro(path string) bool {
-	return path == e.modPath || strings.HasPrefix(path, e.modPath+"/")
+	return path == e.modPath || strings.HasPrefix(path, e.modPath+"/") || isExecPath(path)
+}
+
+// isExecPath: packages of source text handed to vfExec live under example.com/mod.
+func isExecPath(path string) bool {
+	return path == "example.com/mod" || strings.HasPrefix(path, "example.com/mod/")
 }
 
 func (e *Engine) interpretable(fn *ssa.Function) bool {
@@ -356,6 +364,7 @@ func (fr *frame) runBlocks() {
 			if p.steps > p.cfg.MaxSteps {
 				p.abort(abortBudget, fmt.Sprintf("step budget (%d SSA instructions) exhausted: unwinding assertion failed", p.cfg.MaxSteps))
 			}
+			p.curFr, p.curIn = fr, instr
 			switch fr.visit(instr) {
 			case kReturn:
 				return
@@ -572,6 +581,10 @@ func (fr *frame) visit(instr ssa.Instruction) continuation {
 		x := fr.get(instr.X)
 		switch x := x.(type) {
 		case []value:
+			if c, ok := fr.symbolicElem(instr, x); ok {
+				fr.env[instr] = c
+				break
+			}
 			i := fr.index(fr.get(instr.Index), len(x), instr)
 			fr.env[instr] = &x[i]
 		case *value:
@@ -579,6 +592,10 @@ func (fr *frame) visit(instr ssa.Instruction) continuation {
 				p.runtimePanic("nil pointer dereference", fr.pos(instr))
 			}
 			a := (*x).(array)
+			if c, ok := fr.symbolicElem(instr, a); ok {
+				fr.env[instr] = c
+				break
+			}
 			i := fr.index(fr.get(instr.Index), len(a), instr)
 			fr.env[instr] = &a[i]
 		default:
@@ -640,6 +657,41 @@ func (fr *frame) visit(instr ssa.Instruction) continuation {
 }
 
 // index checks an index against a concrete length and returns it as a Go int.
+// symbolicElem: &x[i] with a symbolic i whose only uses are loads is the cell of the ite chain over
+// the elements (bounds check by fork) when the elements can be merged; no fork on the index then.
+func (fr *frame) symbolicElem(instr *ssa.IndexAddr, elems []value) (*value, bool) {
+	p := fr.p
+	it, ok := fr.get(instr.Index).(*Term)
+	if !ok || it.IsConst() || len(elems) < 2 || len(elems) > 16 || p.spec > 0 {
+		return nil, false
+	}
+	refs := instr.Referrers()
+	if refs == nil || len(*refs) == 0 {
+		return nil, false
+	}
+	for _, r := range *refs {
+		if u, ok := r.(*ssa.UnOp); !ok || u.Op != token.MUL {
+			return nil, false
+		}
+	}
+	w := it.sort
+	r := copyVal(elems[len(elems)-1])
+	for k := len(elems) - 2; k >= 0; k-- {
+		m, ok := p.mergeValues(p.tc.Eq(it, p.tc.BV(w, uint64(k))), elems[k], r)
+		if !ok {
+			return nil, false
+		}
+		r = m
+	}
+	inb := p.tc.Cmp(OpULt, it, p.tc.BV(w, uint64(len(elems))))
+	if !p.branch(inb) {
+		p.runtimePanic("index out of range (symbolic index)", fr.pos(instr))
+	}
+	c := new(value)
+	*c = r
+	return c, true
+}
+
 func (fr *frame) index(iv value, n int, instr ssa.Instruction) int {
 	p := fr.p
 	it := iv.(*Term)
@@ -840,6 +892,41 @@ func (p *path) mergeValues(c *Term, a, b value) (value, bool) {
 		if bp, ok := b.(*value); ok && a == bp {
 			return a, true
 		}
+	case structure:
+		if bt, ok := b.(structure); ok && len(bt) == len(a) {
+			out := make(structure, len(a))
+			for i := range a {
+				m, ok := p.mergeValues(c, a[i], bt[i])
+				if !ok {
+					return nil, false
+				}
+				out[i] = m
+			}
+			return out, true
+		}
+	case array:
+		if bt, ok := b.(array); ok && len(bt) == len(a) {
+			out := make(array, len(a))
+			for i := range a {
+				m, ok := p.mergeValues(c, a[i], bt[i])
+				if !ok {
+					return nil, false
+				}
+				out[i] = m
+			}
+			return out, true
+		}
+	case iface:
+		if bi, ok := b.(iface); ok {
+			if a.t == nil && bi.t == nil {
+				return a, true
+			}
+			if a.t != nil && bi.t != nil && types.Identical(a.t, bi.t) {
+				if m, ok := p.mergeValues(c, a.v, bi.v); ok {
+					return iface{t: a.t, v: m}, true
+				}
+			}
+		}
 	case tuple:
 		if bt, ok := b.(tuple); ok && len(bt) == len(a) {
 			out := make(tuple, len(a))
@@ -875,7 +962,7 @@ func (fr *frame) prepareCall(call *ssa.CallCommon) (fn value, args []value) {
 		case *errorV:
 			fn = hostFunc{errv: rv, method: call.Method.Name()}
 		default:
-			f := p.eng.prog.LookupMethod(recv.t, call.Method.Pkg(), call.Method.Name())
+			f := fr.fn.Prog.LookupMethod(recv.t, call.Method.Pkg(), call.Method.Name())
 			if f == nil {
 				p.unsupported(fmt.Sprintf("method %s not found on %s", call.Method.Name(), recv.t))
 			}
